@@ -273,3 +273,90 @@ PROPS["C06"] = {
 }
 
 NOT_APPLICABLE = {}
+
+PROPS["C15"] = {
+    "lean_modules": ["AvroModel.Props.C15"],
+    "required_theorems": ["total", "total_closed", "cyclic_not_ok", "cyclic_is_error", "deterministic",
+                          "mapping_bool", "mapping_int", "mapping_float32", "mapping_float64", "mapping_string",
+                          "mapping_named_scalar", "mapping_bytes", "mapping_slice", "mapping_array", "mapping_map",
+                          "mapping_map_key", "mapping_ptr", "mapping_struct", "mapping_registered", "mapping_time",
+                          "mapping_null", "mapping_unsupported", "mapping_unsupported_named", "ptrWrap_plain",
+                          "ptrWrap_stays", "omitWrap_plain", "omitWrap_union", "fields_spec", "fields_names",
+                          "excluded_unexported", "excluded_bq", "excluded_json_dash", "name_default",
+                          "no_nested_union", "no_dup_branch", "never_null", "named_once_witness", "named_once_partial",
+                          "field_names_unique_witness", "field_names_unique_partial", "codec_builds", "codec_total"],
+    "harness": ["C15"],
+    "careful": True,
+    "level_text": "Proof: over a model of buildschema.go (schemaForType with the schema registry, the parents check and push for every "
+                  "composite kind, schemaForStruct/Array/Map, nullableSchema; Go's stack is the fuel, self-referential types are written with "
+                  "back-references into a type environment) Lean proves for ALL type trees, registries and environments: (total) with fuel "
+                  "|names|*W + depth + 1 the result is a schema or an error, never a stack overflow - also for recursive slices, maps and pointers; "
+                  "(cyclic_is_error) every type that contains itself through any non-empty path of pointers, slices, arrays, map values and "
+                  "included fields is an error; (deterministic) the result depends only on the registry's contents; one lemma per clause of the "
+                  "documented mapping (integers->long, floats->double, bool, string, []byte->bytes, slices->array, string-keyed maps->map and "
+                  "other keys->error, struct->record with exactly the exported non-excluded fields in declaration order under their JSON names, "
+                  "pointer->[null,T] null first, *[]T / *map / already-union stay plain, omitempty->nullable unless union, registered->registered "
+                  "schema first, unsigned/complex/chan/func/interface->error); (no_nested_union, no_dup_branch) every union occurring anywhere in a "
+                  "generated schema is [null,X] with X neither union nor null, provided the registered schemas are flat; (codec_builds) for the "
+                  "fragment bool/int16-64/floats/string/[]byte/slices/string-keyed maps/pointers/structs with distinct JSON names, buildCodec "
+                  "succeeds on the generated schema for the same type under every codec registry. named_once and field_names_unique are FALSE "
+                  "for the code as it is (known findings D22, D24): refuted on concrete types (named_once_witness, field_names_unique_witness) and "
+                  "proved under the hypotheses 'no struct name occurs twice' / 'JSON names distinct' (…_partial). Tie: avro.SchemaForType and "
+                  "Schema.Codec run on a committed zoo of ~90 static Go types (named structs in several positions, embedded, unexported, tag "
+                  "combinations, self-referential through pointer/slice/map/array, mutually recursive, recursive non-struct types, named "
+                  "primitives, generics, foreign packages, time.Time and null.* and user-registered types in every position) and on random "
+                  "reflect.StructOf type trees with random tags; result compared with the model and judged by an independent relational oracle "
+                  "(documented mapping as a relation type~schema, Avro union rules, names defined once, unique field names, error expected iff "
+                  "an unsupported kind, non-string map key or self-reference is reachable).",
+    "level_note": "Trusted: Lean kernel; the hand-written model (tied differentially, every run); descriptors of Go types are derived from reflect.Type by the harness (descOf), "
+                  "so the model sees Name/PkgPath/IsExported/Tag.Get as reflect reports them; type identity is modelled as structural equality of the "
+                  "descriptor trees. D22/D24 are unrepaired known findings (twin lines tagged dup-named-struct / dup-json-name judge only that finding; "
+                  "on the main line the check is skipped only when the driver itself finds the theorem's hypothesis violated).",
+    "rule": "1) every zoo type; 2) every zoo leaf, library type, registered/unregistered custom type, plain and unsupported kind in 7 positions "
+            "(direct, *T, []T, map[string]T, **T, *[]T, [2]T) x with/without omitempty; 3) random anonymous struct trees (depth<=4, <=6 fields, "
+            "json names from a small pool so that duplicates occur, options omitempty / omitempty,string / string / trailing comma / omitemptyX, "
+            "bq '-', unsupported kinds with probability 0/2/6 % per leaf, named/registered leaves 0/15/30 %). Self-referential cases run in a "
+            "child process (2 MB stack) so that a regression to unbounded recursion is an outcome, not the end of the run.",
+    "trusted": ["reflect (Type.Name, PkgPath, Field, Tag.Get, StructOf) as used by harness/sgen.go descOf / sgTypeOf"],
+    "assumptions": ["time.RegisterCodecs and null.RegisterCodecs have run (the harness calls them at start-up); user registrations are "
+                    "re-applied per case from the case's own history, a fixed set of types is never registered"],
+}
+PROPS["C20"] = {
+    "lean_modules": ["AvroModel.Props.C20"],
+    "required_theorems": ["governs_schema", "governs_codec", "unaffected_schema", "unaffected_codec", "last_wins_schema",
+                          "last_wins_codec", "register_other", "byte_element_bypasses", "null_schema_bypasses",
+                          "lib_time_string", "lib_time_long", "lib_time_micros", "lib_time_millis", "lib_time_date",
+                          "lib_time_refuses", "lib_null_int", "lib_null_bool", "lib_null_float", "lib_null_string",
+                          "lib_null_time", "lib_self_consistent", "governs_time", "governs_null"],
+    "harness": ["C20"],
+    "level_text": "Proof: for a type R registered with builder b and schema rs (plain, or the nullable union of a plain core), and EVERY position "
+                  "of R in a type tree - a context with a hole through pointers, slices, map values and struct fields with arbitrary siblings, "
+                  "with or without omitempty - Lean proves (governs_schema) that schema generation emits rs at the hole wrapped by exactly the "
+                  "wrappers of the path, and (governs_codec) that in the codec tree buildCodec builds for that generated schema and type the codec "
+                  "at the hole is exactly b(core) - by induction over contexts mirroring the order of checks in buildCodec (pointer unwrapping "
+                  "before the registry, unions and null bypass the registry and recurse with the same Go type); (unaffected_schema/codec) a "
+                  "registration changes neither schemaForType nor buildCodec (all five mutually recursive builders) for types in which R does not "
+                  "occur; (last_wins_*) the later registration replaces the earlier; the library's own registrations: time.Time under string / long / "
+                  "timestamp-micros / timestamp-millis / int-date schemas, what each null.* builder accepts, and governs_time / governs_null as "
+                  "instances. Exceptions are theorems too: a slice of a registered uint8-kind type is bytes (byte_element_bypasses), a type "
+                  "registered with the null schema gets the null codec (null_schema_bypasses); positions in Go arrays have a schema but no codec; a "
+                  "later sibling with the same JSON name shadows the field (hypothesis NoShadow). Tie: real Register/RegisterSchema with "
+                  "instrumented codecs (struct, int64, string and slice kinds) that log (type, builder instance, operation); every composition of "
+                  "<=2 (thorough 3) of {pointer, slice, map value, struct field, omitempty struct field} around the type, with/without omitempty on "
+                  "the outer field; registration histories (plain, nullable, null-second, re-registration in both orders, refuse-then-accept and "
+                  "accept-then-refuse builders); never-registered control types; time.Time and all null.* types in every position; random values "
+                  "written with Codec.Write and read back. Oracle: schema conforms with the registered schema at the registered positions, log "
+                  "shows only the most recent instance and exactly the expected occurrences, round trip equality; model: bytes and decoded value "
+                  "equal the model codec tree's.",
+    "level_note": "Trusted: Lean kernel; the shared codec model (Build.lean / Codec.lean); user builders are modelled by the set of schema types "
+                  "they accept; registered types of pointer kind are outside the model (buildCodec unwraps pointers before the registry, so a "
+                  "registration of a pointer type never governs codec construction). Known finding D27: a non-nil pointer to an invalid null.* "
+                  "value is written as the non-null branch with a zero payload (twin lines tagged ptr-to-invalid-null).",
+    "rule": "For each registrable kind (struct, int64, slice, string) and each registration history: all compositions of position constructors up "
+            "to depth 2 (quick) / 3 (thorough) x omitempty on the outer field x 2-3 random values; plus random structs with two registered types "
+            "and the same registered type twice in random positions. nil pointers to slices/maps and pointers to nil pointers are not generated "
+            "(they have no encoding of their own).",
+    "trusted": ["the instrumented codecs of harness/sgen.go and their model in Drv/SchemaGen.lean (sgCustomCodec)"],
+    "assumptions": ["Register / RegisterSchema are global and permanent: every case re-applies its own registration history, so the final state "
+                    "of each type depends only on the case; types SG*U are never registered by any case"],
+}
